@@ -7,7 +7,7 @@ import os
 import subprocess
 import sys
 
-WT = "/tmp/verif-mut"
+WT = os.environ.get("VERIF_MUT_WT", "/tmp/verif-mut")
 
 M = {
     # name: (file, old, new, expected-to-catch)
@@ -50,7 +50,6 @@ M.update({
     "entities_join_ignores_raised_gen": ("src/world/entity.rs", "    unsafe fn get(v: &mut &'a EntitiesRes, id: Index) -> Entity {\n        let gen = v\n            .alloc\n            .generation(id)\n            .map(|gen| if gen.is_alive() { gen } else { gen.raised() })", "    unsafe fn get(v: &mut &'a EntitiesRes, id: Index) -> Entity {\n        let gen = v\n            .alloc\n            .generation(id)\n            .map(|gen| if gen.is_alive() { gen } else { Generation::one() })", "C06,C02"),
     "lend_for_each_skips_first": ("src/join/lend_join.rs", "    pub fn for_each(mut self, mut f: impl FnMut(LendJoinType<'_, J>)) {\n        self.keys.for_each(|idx| {", "    pub fn for_each(mut self, mut f: impl FnMut(LendJoinType<'_, J>)) {\n        self.keys.next();\n        self.keys.for_each(|idx| {", "C06"),
     "maybe_lend_wrong_bit": ("src/join/maybe.rs", "    unsafe fn get<'next>((mask, value): &'next mut Self::Value, id: Index) -> Self::Type<'next> {\n        if mask.contains(id) {", "    unsafe fn get<'next>((mask, value): &'next mut Self::Value, id: Index) -> Self::Type<'next> {\n        if mask.contains(id) && id % 64 != 63 {", "C06"),
-    "anti_storage_par_only_ok": ("src/storage/mod.rs", "unsafe impl<'a> Join for AntiStorage<'a> {\n    type Mask = BitSetNot<&'a BitSet>;\n    type Type = ();\n    type Value = ();\n\n    unsafe fn open(self) -> (Self::Mask, ()) {\n        (BitSetNot(self.0), ())", "unsafe impl<'a> Join for AntiStorage<'a> {\n    type Mask = BitSetNot<&'a BitSet>;\n    type Type = ();\n    type Value = ();\n\n    unsafe fn open(self) -> (Self::Mask, ()) {\n        (BitSetNot(self.0), ())", "-"),
 })
 
 M.update({
@@ -65,7 +64,6 @@ M.update({
     "dense_clean_data_first": ("src/storage/storages.rs", "        self.data_id.clear();\n        self.entity_id.clear();\n        self.data.clear();", "        self.data.clear();\n        self.data_id.clear();\n        self.entity_id.clear();", "C19"),
     "changeset_clear_keeps_mask": ("src/changeset.rs", "        let mut mask_temp = core::mem::take(&mut self.mask);\n        // SAFETY: `self.mask` is the correct mask as specified. We swap in a\n        // temporary empty mask to ensure if this unwinds that the mask will be\n        // cleared.\n        unsafe { self.inner.clean(&mask_temp) };\n        mask_temp.clear();\n        self.mask = mask_temp;", "        unsafe { self.inner.clean(&self.mask) };\n        self.mask.clear();", "C19"),
     "changeset_add_overwrites": ("src/changeset.rs", "            unsafe { *self.inner.get_mut(entity.id()) += value };", "            unsafe { *self.inner.get_mut(entity.id()) = value };", "C16"),
-    "changeset_byvalue_get_no_remove": ("src/changeset.rs", "unsafe impl<'a, T> Join for &'a ChangeSet<T> {\n    type Mask = &'a BitSet;\n    type Type = &'a T;\n    type Value = &'a DenseVecStorage<T>;\n\n    unsafe fn open(self) -> (Self::Mask, Self::Value) {\n        (&self.mask, &self.inner)\n    }", "unsafe impl<'a, T> Join for &'a ChangeSet<T> {\n    type Mask = &'a BitSet;\n    type Type = &'a T;\n    type Value = &'a DenseVecStorage<T>;\n\n    unsafe fn open(self) -> (Self::Mask, Self::Value) {\n        (&self.mask, &self.inner)\n    }", "-"),
 })
 
 M.update({
@@ -81,7 +79,6 @@ M.update({
 
 M.update({
     "vec_remove_reads_twice": ("src/storage/storages.rs", "        unsafe { ptr::read(component_ref) }\n    }\n}\n\nimpl<T> SharedGetMutStorage<T> for VecStorage<T> {", "        let first = unsafe { ptr::read(component_ref) };\n        if id % 7 == 3 {\n            core::mem::forget(first);\n            return unsafe { ptr::read(component_ref) };\n        }\n        first\n    }\n}\n\nimpl<T> SharedGetMutStorage<T> for VecStorage<T> {", "C08"),
-    "hashmap_shared_get_mut_aliasing": ("src/storage/storages.rs", "-", "-", "-"),
 })
 
 M.update({
